@@ -333,3 +333,38 @@ const (
 	suspShortWrite   = "$base: short write"
 	suspShortWorkbuf = "$base: short workbuf"
 )
+
+// ---- hashers ----
+
+type hashPiece struct {
+	align int
+	data  []byte
+}
+
+// hash runs one hasher object over the pieces: the status of initialize, then
+// the value returned by every update call and the final checksum (32 bytes
+// each, little-endian, zero-padded).
+func (d *driver) hash(algo, fill int, seed, flags uint32, pieces []hashPiece) (status string, vals [][32]byte) {
+	d.w8('H')
+	d.w8(uint8(algo))
+	d.w8(uint8(fill))
+	d.w32(seed)
+	d.w32(flags)
+	d.w32(uint32(len(pieces)))
+	for _, p := range pieces {
+		d.w8(uint8(p.align))
+		d.w32(uint32(len(p.data)))
+		d.in.Write(p.data)
+	}
+	d.flush('H')
+	status = d.rstatus()
+	if status != "" {
+		return status, nil
+	}
+	for i := 0; i <= len(pieces); i++ {
+		var v [32]byte
+		copy(v[:], d.rbytes(32))
+		vals = append(vals, v)
+	}
+	return status, vals
+}
